@@ -54,7 +54,7 @@ def check_doc(args):
                 if (a is None) != (f is None) or (a is not None and a.position != f.position):
                     bad.append(('C03-attr', {'query': q, 'root_position': ent['root']}))
                     break
-            if ent['root'] == -1 and '{' not in q and '[' not in q and '\\' not in q and '$' not in q:
+            if ent['root'] == -1 and re.match(r'^[A-Za-z*]+$', q):        # names (the list form of find_all takes names, not delimiters)
                 names.append((q, want))
         if bad:
             break
@@ -64,7 +64,7 @@ def check_doc(args):
             uniq[q] = w
         qs = sorted(uniq)
         for sel in (qs, qs[:2], qs[-2:]):
-            want = sorted(p for q in sel for p in uniq[q])
+            want = sorted(set(p for q in sel for p in uniq[q]))      # a node that matches several of the names is returned once
             got = sorted(n.position for n in soup.find_all(list(sel)))
             if got != want:
                 bad.append(('C03-list', {'query': list(sel), 'got': got, 'want': want}))
